@@ -50,6 +50,8 @@ THEOREMS = [
     "Mpc.C03_for_unroll_step",
     "Mpc.C03_for_unroll_done",
     "Mpc.C03_for_unroll_three",
+    "Mpc.C03_fuel_irrelevant",
+    "Mpc.C03_fuel_irrelevant_raw",
     "Mpc.C03_shipped_vectors",
     "Mpc.C03_finding_witnesses",
 ]
